@@ -1,6 +1,7 @@
 #ifndef FASTSCAPELIB_UTILS_ITERATORS_H
 #define FASTSCAPELIB_UTILS_ITERATORS_H
 
+#include <cstddef>
 #include <functional>
 
 #include "xtl/xiterator_base.hpp"
@@ -12,14 +13,24 @@ namespace fastscapelib
     namespace detail
     {
 
+        // Note: dereferencing returns the node index by value (not a reference
+        // into the iterator itself), which keeps the result valid when it is
+        // obtained from a temporary iterator, e.g., with std::reverse_iterator.
         template <class G>
         struct grid_node_index_iterator
             : public xtl::xbidirectional_iterator_base<grid_node_index_iterator<G>,
+                                                       typename G::size_type,
+                                                       std::ptrdiff_t,
+                                                       const typename G::size_type*,
                                                        typename G::size_type>
         {
         public:
             using self_type = grid_node_index_iterator<G>;
-            using base_type = xtl::xbidirectional_iterator_base<self_type, typename G::size_type>;
+            using base_type = xtl::xbidirectional_iterator_base<self_type,
+                                                                typename G::size_type,
+                                                                std::ptrdiff_t,
+                                                                const typename G::size_type*,
+                                                                typename G::size_type>;
 
             using value_type = typename base_type::value_type;
             using reference = typename base_type::reference;
